@@ -191,6 +191,28 @@ func genHeavy(t *rapid.T) Case {
 	return c
 }
 
+// genSpread: a threshold 3-SAT core whose variables are spread over 2 000..6 000 declared variables (most of them
+// unused): data structures the solver sizes by the number of variables change regime there, the search does not.
+func genSpread(t *rapid.T) Case {
+	var c Case
+	c.N, c.Clauses = gen.FormulaThreshold(t, 30, 80)
+	stride := gen.Uniform(t, 25, 75, "stride")
+	off := gen.Uniform(t, 0, stride-1, "offset")
+	for _, cl := range c.Clauses {
+		for i, l := range cl {
+			if l > 0 {
+				cl[i] = l*stride - off
+			} else {
+				cl[i] = l*stride + off
+			}
+		}
+	}
+	c.N = c.N*stride + gen.Uniform(t, 0, 500, "unusedTail")
+	config(t, &c)
+	c.Family = "spread"
+	return c
+}
+
 // genLadder: learned clauses of hundreds / thousands of literals (size thresholds of buffers and heuristics).
 func genLadder(t *rapid.T) Case {
 	var c Case
@@ -235,6 +257,9 @@ func init() {
 		vf.Sub[Case]{Name: "threshold-3sat", Quick: 120, Thorough: 3000, Gen: genHeavy, Check: check, Floor: 0.25,
 			Classes: map[string]float64{"cert-lines>=20": 0.4},
 			Rule:    "uniform 3-SAT n in 30..100 (thorough ..150), ratio 4.0..4.6" + tail},
+		vf.Sub[Case]{Name: "spread-3sat", Quick: 60, Thorough: 1500, Gen: genSpread, Check: check, Floor: 0.25,
+			Classes: map[string]float64{"cert-lines>=20": 0.4},
+			Rule:    "uniform 3-SAT cores of 30..80 variables at ratio 4.0..4.6 whose variables are spread with a stride of 25..75 over 750..6 500 declared variables (mostly unused)" + tail},
 		vf.Sub[Case]{Name: "long-learned-clauses", Quick: 30, Thorough: 100, Gen: genLadder, Check: check, Floor: 0.2,
 			Rule: "'ladder' formulas: one clause over 30..1100 (sometimes 10 001+) variables, split on a helper, plus an implication chain x_k -> x_k+1 (each split on a helper) with or without 'not x_n', or a single gadget; variables numbered helpers-first/last and ascending/descending: the learned clauses hold hundreds to thousands of literals; the truth (unsat / sat) is known by construction and checked through the model / the independent RUP replay" + tail},
 		vf.Sub[Case]{Name: "long-odd-clauses", Quick: 800, Thorough: 10000, Gen: genLongOdd, Check: check, Floor: 0,
